@@ -12,7 +12,7 @@ EXPLANATION = ('Structural conditions of C17: a real submission (SubmitMode::Sub
                'inside the single select! loop (mutually exclusive); try_pause_queue brackets a submission pass and pauses on both TooMany* states; '
                'every submission outcome updates the limiter and an error stops the pass; resume must clear the limiter state that makes the '
                'safety pause fire again.')
-NOT_DECIDED = ['backlog / max-worker-count / per-allocation bounds as invariants over all histories (compute_submission_permit arithmetic)', 'back-off timing']
+NOT_DECIDED = ['backlog / max-worker-count / per-allocation bounds as invariants over all histories (compute_submission_permit arithmetic)', 'back-off timing (decided only: a resume does not touch the delay, R17.4)']
 ASSUMPTIONS = ['single-threaded executor']
 AA = HQ + 'autoalloc::'
 PROC = AA + 'process::'
